@@ -350,7 +350,9 @@ func runOne(ctx context.Context, sp solverSpec, dir, base, text string, timeoutS
 	if err := os.WriteFile(file, []byte(sp.pre+text), 0o644); err != nil {
 		return SolverResult{Status: "error", Solver: sp.name, Output: err.Error()}
 	}
-	defer os.Remove(file)
+	if os.Getenv("GOVC_KEEPQ") == "" {
+		defer os.Remove(file)
+	}
 	argv := sp.argv(file, timeoutSec)
 	solverSem <- struct{}{}
 	defer func() { <-solverSem }()
@@ -390,22 +392,54 @@ func solve(dir, base, text string, timeoutSec int) (SolverResult, []SolverResult
 	if timeoutSec < quick {
 		quick = timeoutSec
 	}
-	r := runOne(context.Background(), solvers[0], dir, base, text, quick)
+	// first pass: the query with the backward trigger of the allocation-monotonicity
+	// axioms removed (the formulas are the same, so both answers are valid)
+	stripped := stripBackwardAllocTriggers(text)
+	r := runOne(context.Background(), solvers[0], dir, base, stripped, quick)
 	all = append(all, r)
 	if r.Status == "unsat" || r.Status == "sat" {
 		return r, all
 	}
-	// Second pass: the same goal under a SUBSET of the assumptions (those that
-	// mention no heap component unrelated to the goal). Proving from fewer
-	// assumptions is still a proof, so only an "unsat" answer is used; anything
-	// else falls through to the full query.
-	for rounds := 0; rounds <= 1; rounds++ {
-		if pt, ok := pruneQuery(text, rounds); ok {
-			pr := runOne(context.Background(), solvers[0], dir, fmt.Sprintf("%s_p%d", base, rounds), pt, 3)
-			if pr.Status == "unsat" {
-				pr.Solver += "/subset"
-				all = append(all, pr)
-				return pr, all
+	// Second pass: equivalent or weaker-assumption variants of the same query, run
+	// concurrently. (a) the backward trigger of the allocation-monotonicity axioms
+	// removed (same formulas, fewer instantiations); (b) a SUBSET of the
+	// assumptions (those that mention no heap component unrelated to the goal).
+	// Proving from fewer assumptions or with fewer triggers is still a proof, so
+	// only an "unsat" answer is used; anything else falls through to the full race.
+	{
+		type variant struct{ tag, text string }
+		var vs []variant
+		if stripped != text {
+			vs = append(vs, variant{"alltriggers", text})
+		}
+		for rounds := 0; rounds <= 1; rounds++ {
+			if pt, ok := pruneQuery(stripped, rounds); ok {
+				vs = append(vs, variant{fmt.Sprintf("subset%d", rounds), pt})
+			}
+		}
+		if len(vs) > 0 {
+			vctx, vcancel := context.WithCancel(context.Background())
+			vch := make(chan SolverResult, len(vs))
+			for i, v := range vs {
+				go func(i int, v variant) {
+					pr := runOne(vctx, solvers[0], dir, fmt.Sprintf("%s_v%d", base, i), v.text, 4)
+					pr.Solver += "/" + v.tag
+					vch <- pr
+				}(i, v)
+			}
+			var won *SolverResult
+			for range vs {
+				pr := <-vch
+				if pr.Status == "unsat" && won == nil {
+					w := pr
+					won = &w
+					vcancel()
+				}
+			}
+			vcancel()
+			if won != nil {
+				all = append(all, *won)
+				return *won, all
 			}
 		}
 	}
@@ -610,4 +644,12 @@ func pruneQuery(text string, rounds int) (string, bool) {
 		b.WriteByte('\n')
 	}
 	return b.String(), true
+}
+
+var backwardAllocRe = regexp.MustCompile(`(\(assert \(forall \(\(r Ref\)\) \(! \(=> \(select (alloc[!@]\d+) r\) \(select (alloc[!@]\d+) r\)\) :pattern \(\(select (alloc[!@]\d+) r\)\)) :pattern \(\(select (alloc[!@]\d+) r\)\)\)\)\)`)
+
+// stripBackwardAllocTriggers removes the second (backward) trigger of every
+// allocation-monotonicity axiom; the formulas stay the same.
+func stripBackwardAllocTriggers(text string) string {
+	return backwardAllocRe.ReplaceAllString(text, "$1)))")
 }
